@@ -62,11 +62,10 @@ Proof.
 Qed.
 
 Lemma rollback_removes_created : forall cs c n,
-  cs <> addActivelyPersistedItem -> createStore <= cs ->
-  txn_rollback cs c [n] = sr_remove c n.
+  createStore <= cs -> txn_rollback cs c [n] = sr_remove c n.
 Proof.
-  intros cs c n H1 H2. unfold txn_rollback.
-  destruct (Z.eqb cs addActivelyPersistedItem) eqn:E; [apply Z.eqb_eq in E; congruence|].
+  intros cs c n H2. unfold txn_rollback.
+  destruct (Z.eqb cs addActivelyPersistedItem); [reflexivity|].
   assert (createStore <=? cs = true) as -> by (apply Z.leb_le; exact H2). reflexivity.
 Qed.
 
@@ -99,13 +98,13 @@ Lemma commit_loop_failed_no_store : forall rs c n,
   (forall m, m <> n -> sr_get (fst (commit_loop rs c [n])) m = sr_get c m).
 Proof.
   intros rs c n HF. destruct rs as [|r rest]; cbn [commit_loop]; intros Hs.
-  - rewrite rollback_removes_created; [|discriminate|cbv; discriminate]. cbn [fst].
+  - rewrite rollback_removes_created by (cbv; discriminate). cbn [fst].
     split; [apply sr_get_remove|intros m Hm; apply sr_get_remove_other; exact Hm].
-  - inversion HF as [|x l Hr Hrest]; subst. destruct r as [|s|s ok]; cbn [fst snd] in *.
+  - inversion HF as [|x l Hr Hrest]; subst. destruct r as [|s|s ok]; cbn [fst snd round_state_ok] in *.
     + discriminate.
-    + destruct Hr as [H1 H2]. rewrite rollback_removes_created by assumption.
+    + rewrite rollback_removes_created by assumption.
       split; [apply sr_get_remove|intros m Hm; apply sr_get_remove_other; exact Hm].
-    + destruct Hr as [H1 H2]. rewrite rollback_removes_created in * by assumption.
+    + rewrite rollback_removes_created in * by assumption.
       cbn [forallb] in *. rewrite present_removed in *. rewrite andb_false_r in *. cbn [fst snd] in *.
       rewrite rollback_unknown_id. split; [apply sr_get_remove|intros m Hm; apply sr_get_remove_other; exact Hm].
 Qed.
@@ -113,9 +112,35 @@ Qed.
 (* as written, a creator whose first round hits a conflict can never commit: the partial rollback
    has removed its store and the refetch of the retry does not find it *)
 Lemma creator_conflict_never_commits : forall s ok rest c n,
-  createStore <= s -> s <> addActivelyPersistedItem ->
+  createStore <= s ->
   snd (commit_loop (RoundConflict s ok :: rest) c [n]) = false.
 Proof.
-  intros s ok rest c n H1 H2. cbn [commit_loop]. rewrite rollback_removes_created by assumption.
+  intros s ok rest c n H1. cbn [commit_loop]. rewrite rollback_removes_created by assumption.
   cbn [forallb]. rewrite present_removed, andb_false_r. reflexivity.
+Qed.
+
+(* every way a transaction that created a store can end without committing removes the store *)
+Lemma exists_after_abort : forall ap phase, phase <> 4%nat -> exists_after ap phase = false.
+Proof.
+  intros ap phase H. destruct phase as [|[|[|[|[|p]]]]]; try reflexivity; try congruence; destruct ap; reflexivity.
+Qed.
+
+Lemma abort_no_store : forall c n o cs,
+  sr_get c n = None -> createStore <= cs ->
+  let c1 := fst (new_btree c n o) in
+  snd (new_btree c n o) = Created /\
+  sr_get (txn_rollback cs c1 [n]) n = None /\ count_name (txn_rollback cs c1 [n]) n = 0%nat /\
+  (forall m, m <> n -> sr_get (txn_rollback cs c1 [n]) m = sr_get c m).
+Proof.
+  intros c n o cs Habs Hcs. cbv zeta. rewrite (new_btree_creates c n o Habs). cbn [fst snd].
+  rewrite (rollback_removes_created cs _ n Hcs).
+  split; [reflexivity|]. split; [apply sr_get_remove|]. split; [apply count_name_remove|].
+  intros m Hm. rewrite sr_get_remove_other by exact Hm. apply sr_get_app_other. cbn [fresh_store s_name]. exact Hm.
+Qed.
+
+Lemma abort_no_store_state99 : forall c n o,
+  sr_get c n = None ->
+  sr_get (txn_rollback addActivelyPersistedItem (fst (new_btree c n o)) [n]) n = None.
+Proof.
+  intros c n o H. destruct (abort_no_store c n o addActivelyPersistedItem H ltac:(cbv; discriminate)) as [_ [A _]]. exact A.
 Qed.
